@@ -4,7 +4,7 @@
     [write] ranges over the activation closures of the register faults:
     [crash_write] (CrashNode/PauseNode), [lat_write] (InjectLatency),
     [loss_write] (InjectPacketLoss), [capv_write] (ReduceCapacity's capacity). *)
-From HS Require Import Base.Prelude C06.Model C06.Registers.
+From HS Require Import Base.Prelude C06.Model C06.Registers C06.Partition C06.Capacity C06.Dispatch.
 Local Open Scope Z_scope.
 
 (** Outside every window the target has its configured setting — for EVERY
@@ -56,3 +56,99 @@ Theorem c06_untargeted_unchanged : forall write cfg sched y,
   (forall w, In w sched -> w_tgt w <> y) -> forall t, reg_at write cfg sched t y = cfg y.
 Proof. exact untargeted_unchanged. Qed.
 Print Assumptions c06_untargeted_unchanged.
+
+(* ---------------------------------------------------------------- partitions *)
+
+(** A pair is partitioned only while a partition window separating it is in
+    force; once every window has ended the network is whole.  EVERY schedule. *)
+Theorem c06_partition_only_while_active : forall sched, wf sched ->
+  forall a b t, part_active sched a b t = false -> is_partitioned (part_at sched t) a b = false.
+Proof. exact partition_only_while_active. Qed.
+Print Assumptions c06_partition_only_while_active.
+
+(** PARTIAL (windows separating the pair strictly separated in time). *)
+Theorem c06_partition_while_active_partial : forall sched a b, wf sched ->
+  separatedG (fun w => separates w a b) sched ->
+  forall w t, In w sched -> separates w a b = true -> covers w t = true ->
+  is_partitioned (part_at sched t) a b = true.
+Proof. exact partition_separated_effect. Qed.
+Print Assumptions c06_partition_while_active_partial.
+
+(** REFUTED in full: the heal of one partition unblocks a pair another active
+    partition shares (known finding C06-overlap-part). *)
+Theorem c06_partition_overlap_refuted : ~ partition_while_active_statement.
+Proof. exact partition_overlap_refuted. Qed.
+Print Assumptions c06_partition_overlap_refuted.
+
+(* ---------------------------------------------------------------- capacity *)
+
+(** For every fault schedule and workload: 0 <= available <= capacity <= configured. *)
+Theorem c06_capacity_available_bounded : forall orig, 0 <= orig -> forall ops s,
+  Forall factor_ok ops -> cap_inv orig s -> cap_inv orig (cap_final orig s ops).
+Proof. exact available_bounded. Qed.
+Print Assumptions c06_capacity_available_bounded.
+
+(** The capacity value is written by the last fault closure only (so the
+    register theorems above apply to it with [capv_write]). *)
+Theorem c06_capacity_is_last_writer : forall orig ops s,
+  c_cap (cap_final orig s ops) =
+  match last_fault ops with
+  | Some e => if fe_on e then capv_write orig (fe_p e) else orig
+  | None => c_cap s
+  end.
+Proof. exact capacity_is_last_writer. Qed.
+Print Assumptions c06_capacity_is_last_writer.
+
+(** REFUTED: available + held = capacity, already with ONE window when something
+    is held at activation (known finding C06-capacity-held-ignored). *)
+Theorem c06_capacity_conservation_refuted : ~ conservation_statement.
+Proof. exact conservation_refuted. Qed.
+Print Assumptions c06_capacity_conservation_refuted.
+
+(** PARTIAL: exact accounting when every activation finds nothing held and does
+    not raise the capacity. *)
+Theorem c06_capacity_conservation_partial : forall orig ops s h,
+  conserved s h -> acts_idle orig s h ops ->
+  conserved (cap_final orig s ops) (held_after orig s h ops).
+Proof. exact conservation_partial. Qed.
+Print Assumptions c06_capacity_conservation_partial.
+
+(* ---------------------------------------------------------------- crashed entities *)
+
+(** PARTIAL: no handler is entered while the crash flag is set. *)
+Theorem c06_no_handler_entry_while_crashed_partial : forall sched x arrs t pid,
+  In (t, pid, 0) (plain_activity sched x arrs) -> crashed_at sched t x = false.
+Proof. exact no_handler_entry_while_flagged. Qed.
+Print Assumptions c06_no_handler_entry_while_crashed_partial.
+
+(** REFUTED: "while crashed it executes nothing" — a process in flight at the
+    crash instant keeps advancing (known finding C06-inflight-process-runs-while-crashed). *)
+Theorem c06_crashed_executes_nothing_refuted : ~ crashed_executes_nothing_statement.
+Proof. exact crashed_executes_nothing_refuted. Qed.
+Print Assumptions c06_crashed_executes_nothing_refuted.
+
+(** Outside every crash/pause window arrivals are processed in full. EVERY schedule. *)
+Theorem c06_processing_resumes : forall sched x arrs t pid ds, wf sched ->
+  In (t, pid, ds) arrs -> active sched x t = false ->
+  forall r, r = (t, pid, 0) \/ In r (proc_steps t pid 1 ds) -> In r (plain_activity sched x arrs).
+Proof. exact processes_outside_windows. Qed.
+Print Assumptions c06_processing_resumes.
+
+(** Entities no fault names run exactly as in the fault-free simulation. *)
+Theorem c06_bystander_unaffected : forall sched y arrs,
+  (forall w, In w sched -> w_tgt w <> y) -> plain_activity sched y arrs = plain_activity [] y arrs.
+Proof. exact bystander_unaffected. Qed.
+Print Assumptions c06_bystander_unaffected.
+
+(** Queue-fronted target. PARTIAL: only work that arrived while the flag was
+    clear is executed; REFUTED: queued work is started during the crash
+    (known finding C06-queued-work-starts-while-crashed). *)
+Theorem c06_queue_accepts_only_while_up_partial : forall sched x arrs r,
+  In r (qr_activity sched x arrs) ->
+  exists t d, In (t, snd (fst r), d) arrs /\ crashed_at sched t x = false.
+Proof. exact queue_accepts_only_while_unflagged. Qed.
+Print Assumptions c06_queue_accepts_only_while_up_partial.
+
+Theorem c06_queued_entry_while_crashed_refuted : ~ queued_no_entry_while_crashed_statement.
+Proof. exact queued_entry_while_crashed_refuted. Qed.
+Print Assumptions c06_queued_entry_while_crashed_refuted.
